@@ -38,7 +38,9 @@ MANIFEST = {
             ' Also an exception class with two bases (HA reachable through '
             'the second base only) against all handler lists, and two '
             'different classes of the same name raised in successive '
-            'renders of one compiled template.',
+            'renders of one compiled template; unrelated classes whose '
+            'names contain a handler name; an exception outside the '
+            'Exception hierarchy through (nested) finally blocks.',
     'note': 'Trusted: dtmc/refsem.py (imports nothing from DocumentTemplate; '
             'uses Python try/except/finally itself).  Exceptions are harness '
             'classes raised by namespace callables or by dtml-raise with an '
